@@ -192,6 +192,35 @@ func c19Accessors(c *Ctx, logN, rt int, logQ, logP []int, lds int) {
 		if len(P) > 0 {
 			wantLogP = c19Log2Big(pprod)
 		}
+		// Ring.LogModuli (behind LogQ / LogP / LogQP): finite, the sum of log2 over the ring's own ModuliChain()
+		sum, sumP := 0.0, 0.0
+		for _, q := range Q {
+			sum += math.Log2(float64(q))
+		}
+		for _, q := range P {
+			sumP += math.Log2(float64(q))
+		}
+		rings := []*ring.Ring{p.RingQ(), p.RingQ().AtLevel(0), p.RingQ().AtLevel(len(Q) / 2)}
+		if len(P) > 0 {
+			rings = append(rings, p.RingP(), p.RingP().AtLevel(0))
+		}
+		for ri, r := range rings {
+			want := 0.0
+			for _, q := range r.ModuliChain() {
+				want += math.Log2(float64(q))
+			}
+			if got := r.LogModuli(); math.IsInf(got, 0) || math.IsNaN(got) || math.Abs(got-want) > 1e-9 {
+				bad("LogQ/LogP/LogQP", fmt.Sprintf("ring %d: LogModuli()=%v, the sum of log2 over its ModuliChain() (%d moduli) is %.12f", ri, got, len(r.ModuliChain()), want))
+			}
+		}
+		for _, v := range []float64{p.LogQ(), p.LogP(), p.LogQP()} {
+			if math.IsInf(v, 0) || math.IsNaN(v) {
+				bad("LogQ/LogP/LogQP", fmt.Sprintf("LogQ=%v LogP=%v LogQP=%v for %d+%d moduli (sums of log2: %.6f, %.6f)", p.LogQ(), p.LogP(), p.LogQP(), len(Q), len(P), sum, sumP))
+			}
+		}
+		if math.Abs(p.LogQ()-sum) > 1e-9 || math.Abs(p.LogP()-sumP) > 1e-9 || math.Abs(p.LogQP()-sum-sumP) > 1e-9 {
+			bad("LogQ/LogP/LogQP", fmt.Sprintf("LogQ=%.12f LogP=%.12f LogQP=%.12f, the sums of log2 of the moduli are %.12f %.12f", p.LogQ(), p.LogP(), p.LogQP(), sum, sumP))
+		}
 		if math.Abs(p.LogQ()-c19Log2Big(prod)) > 1e-9 || math.Abs(p.LogP()-wantLogP) > 1e-9 || math.Abs(p.LogQP()-c19Log2Big(prod)-wantLogP) > 1e-9 {
 			bad("LogQ/LogP/LogQP", fmt.Sprintf("LogQ=%.12f LogP=%.12f LogQP=%.12f, log2 of the products %.12f %.12f", p.LogQ(), p.LogP(), p.LogQP(), c19Log2Big(prod), wantLogP))
 		}
@@ -214,6 +243,14 @@ func c19Accessors(c *Ctx, logN, rt int, logQ, logP []int, lds int) {
 	}
 }
 
+func c19Rep(b, n int) []int {
+	out := make([]int, n)
+	for i := range out {
+		out[i] = b
+	}
+	return out
+}
+
 func c19DerivedAccessors(c *Ctx) {
 	// chains in which the prime of the working level is not the largest one
 	for _, x := range []struct {
@@ -226,6 +263,13 @@ func c19DerivedAccessors(c *Ctx) {
 		{[]int{58, 20, 59, 21, 60}, []int{61, 25, 61}},
 		{[]int{25}, []int{26}},
 		{[]int{45, 60}, []int{60, 30}},
+		// products beyond 2^1024 and 2^2048 (float64 cannot hold them): every N=2^16 bootstrapping set is of this size
+		{c19Rep(55, 18), []int{56}},                           // 990 bits: just below
+		{c19Rep(55, 19), nil},                                 // 1045 bits
+		{c19Rep(55, 20), c19Rep(56, 3)},                       // 1100 + 168
+		{c19Rep(45, 12), c19Rep(61, 19)},                      // P beyond 2^1024, Q below
+		{c19Rep(60, 40), c19Rep(61, 4)},                       // 2400 + 244
+		{append([]int{60}, c19Rep(40, 30)...), c19Rep(61, 5)}, // 1260 + 305: the shape of a default bootstrapping chain
 	} {
 		for rt := 0; rt <= 1; rt++ {
 			c19Accessors(c, 5+c.rng.Intn(4), rt, x.logQ, x.logP, 40)
